@@ -2,6 +2,7 @@
    RFC 8945 input (Proofs/TsigSpec.v), validate's acceptance condition, sign-then-validate. *)
 From DV Require Import Base.Prelude.
 From DV Require Model.NameM.
+From DV Require Proofs.NameOrder.
 From DV Require Import Model.TsigM Proofs.TsigSpec.
 Open Scope Z_scope.
 Ltac Zify.zify_post_hook ::= Z.to_euclidean_division_equations.
@@ -81,23 +82,9 @@ Proof.
   inversion E. now rewrite canonical_name_wire.
 Qed.
 
-Lemma cmp_bytes_refl : forall l, cmp_bytes l l = Eq.
-Proof. induction l; cbn; [reflexivity|]. now rewrite Z.compare_refl. Qed.
-
-Lemma fc_loop_refl : forall l d nl, NameM.fc_loop l l d nl =
-  ((if d <? 0 then NameM.rSUPER else if d >? 0 then NameM.rSUB else NameM.rEQUAL), d, nl + zlen l).
-Proof.
-  induction l; intros; cbn [NameM.fc_loop].
-  - unfold zlen. cbn. now rewrite Z.add_0_r.
-  - rewrite cmp_bytes_refl, IHl. f_equal. unfold zlen. cbn [length]. lia.
-Qed.
-
+(* Name.__eq__ is reflexive (C06: order_refl) *)
 Lemma name_eqb_refl : forall n, NameM.name_eqb n n = true.
-Proof.
-  intros. unfold NameM.name_eqb, NameM.order, NameM.fullcompare.
-  rewrite Bool.eqb_reflx. cbn [negb]. rewrite fc_loop_refl. cbn [fst snd].
-  apply Z.eqb_eq. lia.
-Qed.
+Proof. intros. unfold NameM.name_eqb. rewrite NameOrder.order_refl. reflexivity. Qed.
 
 (* ---------- the digest input is the RFC 8945 input ---------- *)
 
